@@ -376,7 +376,19 @@ class OneOp(Harness):
         res, rows, mut = apply_op(name, ax, op, a, b, generic=bool(self.params.get("generic")))
         # the same operation through the other form (generic <-> specific) and its (non-)mutating counterpart on the reference copy
         res2, _, _ = apply_op(name, ax, op, ref, refb, generic=not bool(self.params.get("generic")))
-        return dict(a=a, b=b, ref=ref, res=res, res2=res2, rows=rows, mut=mut, snap_a=snap_a, snap_b=snap_b, name=name, ax=ax)
+        alias = None
+        if not mut:
+            # a derived object shares no mutable label/data state with its sources: permute a second result in place along every axis
+            res3, _, _ = apply_op(name, ax, op, a, b, generic=bool(self.params.get("generic")))
+            try:
+                for axx in _axes_of(name):
+                    k = res3.mat.shape[mat_axis(res3, axx)]
+                    if k >= 2:
+                        getattr(res3, "reorder_" + axx)(list(range(k))[::-1])
+                alias = same_snapshot(snap_a, snapshot(a, name)) and same_snapshot(snap_b, snapshot(b, name))
+            except Exception:
+                alias = None       # the in-place operation itself is the subject of other obligations
+        return dict(a=a, b=b, ref=ref, res=res, res2=res2, rows=rows, mut=mut, snap_a=snap_a, snap_b=snap_b, name=name, ax=ax, alias=alias)
 
     def call(self, inp, mk):
         return self._run(mk)
@@ -413,6 +425,8 @@ class OneOp(Harness):
                     continue
                 P.prove(got is not None and len(cells(got)) == len(cells(want)) and all(_is(x, y) for x, y in zip(cells(got), cells(want))),
                         label + ":labels-of-the-other-axes-kept (%s)" % f)
+        if out.get("alias") is not None:
+            P.prove(out["alias"], label + ":permuting-the-result-in-place-leaves-the-operands-unchanged (no shared label arrays)")
         if not mut:
             P.prove(same_snapshot(out["snap_a"], snapshot(out["a"], name)), label + ":operand-unchanged")
         P.prove(same_snapshot(out["snap_b"], snapshot(out["b"], name)), label + ":second-operand-unchanged")
